@@ -404,7 +404,7 @@ def correspondence(ctx):
 
     # ---- library modules: history vs fresh instance (property oracle on the real code) -------------
     fams = list(zoo.GENERATORS)
-    per = 2 if ctx.quick else 12
+    per = 4 if ctx.quick else 14
     for fam in fams:
         for _ in range(per):
             case = zoo.GENERATORS[fam](nprng)
